@@ -51,7 +51,11 @@ BASES = {
     "IAm": H(NP_UNC + "1000" + "C402000009" + "2201E0" + "9103" + "210F"),
     "UnconfirmedCOVNotification": H(NP_UNC + "1002" + "0901" + "1C02000009" + "2C00800001" + "3900" + "4E" + "0955" + "2E" + "4400000000" + "2F" + "4F"),
 }
+VALID = H(NP_REQ + "0005630C" + "0C02000001" + "194D")                 # the valid request of the histories, invoke 99
 PROBE = H(NP_REQ + "0005C80C" + "0C02000001" + "194D")                 # ReadProperty device,1 objectName, invoke 200
+# the same read arriving through a router (second station) on behalf of station 0x21 on network 7, invoke 201
+PROBE_ROUTED = H("010C" + "0007" + "01" + "21" + "0005C90C" + "0C02000001" + "194D")
+PROBE_ROUTED_REPLY = H("0120" + "0007" + "01" + "21" + "FF" + "30C90C" + "0C02000001" + "194D" + "3E" + "7400646576" + "3F")
 PROBE_REPLY_APDU = H("30C80C" + "0C02000001" + "194D" + "3E" + "7400646576" + "3F")   # ComplexAck "dev"
 INSERT_VALUES = (0x00, 0x01, 0x0E, 0x0F, 0x1E, 0x3E, 0x3F, 0xFF)
 
@@ -104,6 +108,10 @@ def to_tester(dst, level):
     return dst in ("9", "('192.168.1.9', 47808)") if level == "lan" else "192.168.1.9" in dst
 
 
+def to_tester2(dst, level):
+    return dst == "8" if level == "lan" else "192.168.1.8" in dst
+
+
 def run_frames(level, frames, settle_between=True, probe=True):
     """Deliver frames to a fresh device; returns (device, problems, observation)."""
     dev = Device(level)
@@ -111,6 +119,7 @@ def run_frames(level, frames, settle_between=True, probe=True):
     for f in frames:
         dev.inject(f, settle=settle_between)
     dev.settle()
+    dev.lingering = bool(dev.app.smap.serverTransactions or dev.app.smap.clientTransactions)
     dev.run_quiet()
     problems = []
     sent = replies_of(dev, level, start)
@@ -142,6 +151,16 @@ def run_frames(level, frames, settle_between=True, probe=True):
         ok = [1 for (dst, n, a, raw) in got if n is not None and n["payload"] == PROBE_REPLY_APDU and to_tester(dst, level)]
         if len(ok) != 1:
             problems.append(("later-valid-request-not-answered-correctly", {"got": [raw.hex() for (_, _, _, raw) in got][:3]}))
+        # the same read through a router: the answer must go back to the station that forwarded it (newest knowledge)
+        before = len(dev.sent())
+        dev.inject(wrap(level, PROBE_ROUTED), other=True)
+        dev.settle()
+        got = replies_of(dev, level, before)
+        ok = [1 for (dst, n, a, raw) in got
+              if (raw if level == "lan" else devref.strip_bvll(raw)) == PROBE_ROUTED_REPLY and to_tester2(dst, level)]
+        if len(ok) != 1:
+            problems.append(("later-routed-request-not-answered-to-the-forwarding-station",
+                             {"got": [(dst, raw.hex()) for (dst, _, _, raw) in got][:3]}))
         dev.run_quiet(horizon=vclock.clock.now + 30.0)
         res = dev.residue()
         for k, v in res.items():
@@ -185,14 +204,22 @@ def mut_shard(item, deadline):
             acc.swallowed["%s: %s" % (name, msg[:70])] += 1
         for e in dev.errors:
             acc.swallowed["inject: %s" % e[:70]] += 1
-        key = (level, hs, cls["why"], bool(problems))
+        # one representative per way of being handled; frames that leave a transaction waiting (e.g. the first segment
+        # of a request whose rest never comes) are kept per invoke ID because they interact with later traffic
+        if dev.lingering:
+            apdu0 = 6 if level == "ip" else 2
+            key = (level, "lingering", frame[apdu0 + 2] if len(frame) > apdu0 + 2 else None, cls["why"])
+            prio = 0
+        else:
+            key = (level, hs, cls["why"], bool(problems), obs[0].split("->")[0] if obs else "silent")
+            prio = 1 if hs else 2
         if key not in reps:
-            reps[key] = frame
+            reps[key] = (prio, frame)
         for prob, detail in problems:
             acc.fail(root_cause(dev, prob), {"problem": prob, "detail": detail, "level": level, "base": base, "mutation": kind,
                                              "frame": frame.hex(), "classified": cls["why"], "device_sent": obs},
                      {"level": level, "frames": [frame], "settle": True})
-    acc.info["representatives"] = [(k[0], f) for k, f in reps.items()]
+    acc.info["representatives"] = [(k[0], pf[0], pf[1]) for k, pf in reps.items()]
     return acc
 
 
@@ -249,8 +276,7 @@ def run(tier, seed, deadline):
     acc.info["mutated frames"] = len(muts)
     reps = acc.info.pop("representatives", [])
     pool = {}
-    for level, f in reps:
-        f = bytes.fromhex(f["hex"]) if isinstance(f, dict) else f
+    for level, prio, f in sorted(reps, key=lambda r: (r[0], r[1], r[2])):
         pool.setdefault(level, [])
         if f not in pool[level]:
             pool[level].append(f)
@@ -259,8 +285,8 @@ def run(tier, seed, deadline):
     items = []
     depth = 2 if tier == "quick" else 3
     for level in ("lan", "ip"):
-        garbage = sorted(pool.get(level, []))[:40 if tier == "quick" else 60]
-        valid = wrap(level, BASES["ReadProperty"])
+        garbage = pool.get(level, [])[:40 if tier == "quick" else 60]      # lingering first, then exception-raising, then the rest
+        valid = wrap(level, VALID)
         for n in range(1, depth + 1):
             if n == 3:
                 garbage = garbage[:24]
@@ -273,8 +299,8 @@ def run(tier, seed, deadline):
     run_shards(hist_shard, chunks(items, 256), deadline, into=acc)
     acc.sample({"level": "lan", "base": "ReadProperty", "frame": BASES["ReadProperty"].hex(), "device_sent": a[2]})
     if pool.get("lan"):
-        g = sorted(pool["lan"])[0]
-        acc.sample({"history": [g.hex(), BASES["ReadProperty"].hex()], "device_sent": run_frames("lan", [g, BASES["ReadProperty"]])[2]})
+        g = pool["lan"][0]
+        acc.sample({"history": [g.hex(), VALID.hex()], "device_sent": run_frames("lan", [g, VALID])[2]})
     return acc
 
 
